@@ -10,7 +10,8 @@ RULE = ('Hypothesis: a Twisted ModbusClientProtocol on a StringTransport, TCP va
         'datagram variant ModbusUdpClientProtocol (whole replies per datagram, no connection), driven by a history of 1..25 operations: issue a request (unit 1..247), deliver '
         'the reply of pending request k (any order on TCP, oldest first on serial), deliver several replies coalesced into one '
         'read, deliver one reply split over two reads, inject an unsolicited reply (unused transaction id), inject a duplicate '
-        'of an already delivered reply, lose the connection, issue after the loss; the transaction-id counter starts at 0 or '
+        'of an already delivered reply, an unsolicited reply split over two reads (idle, with a request issued in between, or behind a '
+        'genuine reply), a request that cannot be encoded (execute raises, nothing is sent), lose the connection, issue after the loss; the transaction-id counter starts at 0 or '
         'just below 0xFFFF. Oracle: model tid -> deferred: each deferred fires exactly once with the reply that carries its '
         'tid and the values scripted for it; transaction ids on the wire are pairwise distinct among outstanding requests; '
         'unsolicited / duplicate replies fire nothing and leave pending requests intact (TCP only: a serial line has no id); '
@@ -27,7 +28,8 @@ def _case(draw):
     variant = draw(st.sampled_from(['tcp', 'tcp', 'rtu', 'udp']))
     ops = []
     for _ in range(draw(st.integers(1, 25))):
-        o = draw(st.sampled_from(['req', 'req', 'req', 'reply', 'reply', 'coalesce', 'split', 'unsolicited', 'dup', 'lose', 'stray+reply', 'req-retry']))
+        o = draw(st.sampled_from(['req', 'req', 'req', 'reply', 'reply', 'coalesce', 'split', 'unsolicited', 'dup', 'lose', 'stray+reply', 'req-retry',
+                                  'bad-req', 'stray-split']))
         if o == 'req':
             ops.append(['req', draw(st.integers(1, 247)), draw(st.integers(1, 6))])
         elif o == 'req-retry':
@@ -36,6 +38,14 @@ def _case(draw):
         elif o == 'stray+reply':
             # an unsolicited / duplicate reply in the same read as (in front of) a genuine reply, whole or partial
             ops.append(['stray+reply', draw(st.integers(0, 9)), draw(st.sampled_from(['whole', 'partial'])), draw(st.integers(1, 12))])
+        elif o == 'bad-req':
+            # a request the caller filled in wrongly: it cannot be encoded, execute() raises and nothing is sent
+            ops.append(['bad-req', draw(st.integers(1, 247)), draw(st.sampled_from(['value-too-large', 'negative-address', 'too-many-registers']))])
+        elif o == 'stray-split':
+            # an unsolicited reply that arrives in two reads; in between a request is issued ('req') or nothing happens ('none');
+            # 'behind-reply': its head arrives in the same read as (behind) a genuine reply
+            ops.append(['stray-split', draw(st.integers(0, 9)), draw(st.integers(1, 10)), draw(st.sampled_from(['req', 'none', 'behind-reply'])),
+                        draw(st.integers(1, 247)), draw(st.integers(1, 6))])
         elif o == 'reply':
             ops.append(['reply', draw(st.integers(0, 9))])
         elif o == 'coalesce':
@@ -185,7 +195,7 @@ def run_case(case):
         for op in case['ops']:
             if variant == 'udp':
                 # datagrams: no connection to lose, a reply is one whole datagram
-                if op[0] in ('lose', 'stray+reply'):
+                if op[0] in ('lose', 'stray+reply', 'stray-split'):
                     continue
                 if op[0] == 'split':
                     op = ['reply', op[1]]
@@ -208,9 +218,63 @@ def run_case(case):
                     if r['tid'] is not None and any(x['tid'] == r['tid'] for x in out) and framing == 'tcp':
                         discs.append(Disc('tid-reused-while-outstanding', 'transaction id %d issued twice among outstanding requests' % r['tid']))
                 continue
+            if op[0] == 'bad-req':
+                from pymodbus.register_write_message import WriteSingleRegisterRequest, WriteMultipleRegistersRequest
+                bad = {'value-too-large': lambda: WriteSingleRegisterRequest(1, 0x10000, unit=op[1]),
+                       'negative-address': lambda: WriteSingleRegisterRequest(-1, 1, unit=op[1]),
+                       'too-many-registers': lambda: WriteMultipleRegistersRequest(1, [0] * 200, unit=op[1])}[op[2]]()
+                labels.append('unencodable-request')
+                try:
+                    d_ = proto.execute(bad)
+                    d_.addErrback(lambda f: None)      # whatever it is, it is not a request the history tracks
+                except Exception:
+                    pass
+                if len(tr.value()) != sent_len[0]:
+                    # something was written after all: then it is an ordinary outstanding request the peer never answers
+                    sent_len[0] = len(tr.value())
+                continue
             if lost:
                 continue
             pend = pending()
+            if op[0] == 'stray-split':
+                if framing != 'tcp':
+                    continue
+                used = set(y['tid'] for y in pend)
+                tid = (op[1] * 7919 + 501) & 0xFFFF
+                while tid in used or tid in set((t_ + k_) & 0xFFFF for t_ in [proto.transaction.tid] for k_ in range(0, 4)):
+                    tid = (tid + 1) & 0xFFFF
+                stray = refframe.build('tcp', 1, specpdu.encode('rsp:3', {'registers': [0xDEAD]}), tid, 0)
+                cut = max(1, min(len(stray) - 1, op[2]))
+                before = [(len(x['fired']), len(x['failed'])) for x in reqs]
+                labels.append('stray-split:' + op[3])
+                nt = True
+                if op[3] == 'behind-reply' and pend:
+                    x = pend[op[1] % len(pend)]
+                    feed(x['frame'] + stray[:cut], 'genuine reply followed by the head of an unsolicited reply')
+                    x['delivered'] += 1
+                    feed(stray[cut:], 'tail of the unsolicited reply')
+                    before[x['idx']] = (before[x['idx']][0] + 1, before[x['idx']][1])
+                    if not (len(x['fired']) == 1 and list(getattr(x['fired'][0], 'registers', [])) == x['regs']):
+                        discs.append(Disc('reply-not-matched', 'tcp request %d (tid %r): its reply arrived in front of the head of an unsolicited reply and the deferred fired %d times' % (x['idx'], x['tid'], len(x['fired']))))
+                else:
+                    feed(stray[:cut], 'head of an unsolicited reply')
+                    r = None
+                    if op[3] == 'req':
+                        r = issue(op[4], op[5])
+                        r['lost'] = False
+                        before.append((0, 0))
+                    feed(stray[cut:], 'tail of the unsolicited reply')
+                    if r is not None and not discs:
+                        feed(r['frame'], 'reply')
+                        r['delivered'] += 1
+                        before[r['idx']] = (1, 0)
+                        if not (len(r['fired']) == 1 and list(getattr(r['fired'][0], 'registers', [])) == r['regs']):
+                            discs.append(Disc('reply-not-matched', 'tcp request %d (tid %r), issued between the two reads that brought an unsolicited reply: after its own reply the deferred fired %d times' % (
+                                r['idx'], r['tid'], len(r['fired']))))
+                after = [(len(x['fired']), len(x['failed'])) for x in reqs]
+                if after != before and not discs:
+                    discs.append(Disc('stray-reply-fired-something', 'tcp: deferreds changed state around an unsolicited reply split over two reads (%s)' % op[3]))
+                continue
             if op[0] == 'lose':
                 lost = True
                 lost_flag[0] = True
